@@ -351,6 +351,14 @@ func classify(c core.Case, out []string) []string {
 	t := &tracker{s: newRef(), wasDense: map[uint32]bool{}, convCount: map[uint32]int{}, cycles: map[uint32]int{}, lastBulk: map[uint32]string{}, itPos: [nSlots]int{-1, -1, -1, -1}}
 	prevLine, repeat := "", 0
 	prev := ""
+	forced := ""
+	if hd := core.Toks(c.Lines[0]); len(hd) == 4 {
+		if src, ok := parseHeights(hd[3]); ok {
+			forced = src.kind
+			t.lab("inner skip list: tower heights forced (" + forced + ")")
+		}
+	}
+	maxB := 0
 	for i, l := range c.Lines[1:] {
 		tk := core.Toks(l)
 		if len(tk) == 0 {
@@ -496,6 +504,20 @@ func classify(c core.Case, out []string) []string {
 				}
 				t.labels = append(t.labels, "early stop", lab)
 			}
+		}
+		if forced != "" && len(t.s.cnt) > maxB {
+			maxB = len(t.s.cnt)
+			for _, n := range []int{8, 33, 100, 300} {
+				if maxB == n {
+					t.lab(fmt.Sprintf("forced heights (%s): %d buckets reached", forced, n))
+				}
+			}
+		}
+		if forced != "" && tk[0] == "rep" {
+			t.lab("rep with tower validation under forced heights")
+		}
+		if _, key, _ := alarmOf(out[min(i+1, len(out)-1)]); key != "" {
+			t.lab("alarm " + key)
 		}
 		prev = tk[0]
 		if i+1 < len(out) && out[i+1] == "panic" {
